@@ -846,8 +846,8 @@ def check(run):
         return
     shape = call_site_shape(run)
     run.cov["call_site_shape"] = shape or "ok"
-    if shape:
-        run.violation("tie-broken", "translator-shape-changed: %s" % shape, {"correspondence": "src/client.rs Client::handle call site of wait_paused()", "shape": shape}, found_input=False)
+    # a changed shape is a broken tie: go on and search for a failing input (hooked schedules, admin console, wire leg,
+    # races); it is reported as no-failing-input-found only if that search finds none (see the end of check)
     for fi, (desc, fam) in enumerate(families):
         reqs = []
         for n, evs in fam:
@@ -866,8 +866,9 @@ def check(run):
         nv += check_batch(run, binp, reqs, "pools", stats)
 
     if not nv:
+        before = len(run.violations)
         check_admin(run, binp)
-        nv = len(run.violations)
+        nv += len(run.violations) - before      # NOT the shape violation: a broken shape must not stop the search for a failing input
 
     # wire leg: the call site in Client::handle executed (transaction and session mode, real admin client)
     if not nv:
@@ -927,6 +928,10 @@ def check(run):
                                      "multi_pool": sum(1 for key in stats["distinct"] if key[1] > 1),
                                      "max_steps": max((len(key[2]) for key in stats["distinct"]), default=0)}
 
+    if shape and not any(found for _, _, found in run.violations):
+        run.violation("tie-broken", "translator-shape-changed: %s" % shape,
+                      {"correspondence": "src/client.rs Client::handle call site of wait_paused()", "shape": shape,
+                       "searched": "hooked schedules, admin console scenarios, %d wire scenarios, free-running races: no failing input" % run.cov.get("wire", {}).get("scenarios", 0)}, found_input=False)
     if not proof_ok and not run.violations and not run.broken:
         # the implementation agreed with the monitor on every schedule: report the broken proof as such
         run.violation("proof-broken", "Pause/Props.v no longer checks; the monitor found no failing schedule on the implementation",
